@@ -315,7 +315,8 @@ func (c *SimConn) Write(p []byte) (int, error) {
 			w.timer.Stop()
 		}
 		c.ww = nil
-		if w.timedOut {
+		// like a socket: the deadline only matters if the write still cannot make progress
+		if w.timedOut && !(c.Out.Cap > 0 && c.Out.Cap-c.Out.inflightLen() > 0) && !c.closed && !c.Out.rst {
 			s.Mu.Unlock()
 			return written, errTimeout("write", c)
 		}
